@@ -25,6 +25,10 @@ pub enum Op {
     GetMutWrite { c: u8, k: u8 },
     Remove { c: u8, k: u8 },
     DropCo { c: u8 },
+    /// store / remove a value of another shape under a key space of its own:
+    /// shape 0 = zero-sized guard with a destructor, shape 1 = 128-byte, 16-aligned value
+    PutShape { c: u8, k: u8, shape: u8 },
+    RemoveShape { c: u8, k: u8, shape: u8 },
 }
 
 #[derive(Debug, Clone, Serialize, Deserialize)]
@@ -40,6 +44,8 @@ pub fn strategy() -> impl Strategy<Value = Case> {
             2 => (0u8..3, 0u8..4).prop_map(|(c, k)| Op::GetMutWrite { c, k }),
             3 => (0u8..3, 0u8..4).prop_map(|(c, k)| Op::Remove { c, k }),
             1 => (0u8..3).prop_map(|c| Op::DropCo { c }),
+            3 => (0u8..3, 0u8..2, 0u8..2).prop_map(|(c, k, shape)| Op::PutShape { c, k, shape }),
+            1 => (0u8..3, 0u8..2, 0u8..2).prop_map(|(c, k, shape)| Op::RemoveShape { c, k, shape }),
         ],
         0..60,
     )
@@ -58,6 +64,39 @@ impl Drop for Tok {
     }
 }
 
+thread_local! {
+    /// destructor runs of the zero-sized guard / the wide value on this thread
+    static SHAPE_DROPS: std::cell::Cell<[u32; 2]> = const { std::cell::Cell::new([0, 0]) };
+}
+
+/// zero-sized, but with a destructor
+struct Guard;
+impl Drop for Guard {
+    fn drop(&mut self) {
+        SHAPE_DROPS.with(|d| {
+            let mut v = d.get();
+            v[0] += 1;
+            d.set(v);
+        });
+    }
+}
+
+/// large and over-aligned
+#[repr(align(16))]
+#[allow(dead_code)]
+struct Wide([u64; 16]);
+impl Drop for Wide {
+    fn drop(&mut self) {
+        SHAPE_DROPS.with(|d| {
+            let mut v = d.get();
+            v[1] += 1;
+            d.set(v);
+        });
+    }
+}
+
+const SHAPE_KEYS: [[&str; 2]; 2] = [["guard-0", "guard-1"], ["wide-0", "wide-1"]];
+
 type Co = Coroutine<'static, (), (), Option<usize>>;
 
 pub fn exec(c: &Case) -> Outcome {
@@ -73,6 +112,11 @@ pub fn exec(c: &Case) -> Outcome {
     let mut next = 0u32;
     let mut o = Outcome::pass();
     let (mut overwrites, mut removes, mut drops_with_live) = (0, 0, 0);
+    // other shapes: model[c][shape][k] = stored?, and the number of destructor runs due
+    SHAPE_DROPS.with(|d| d.set([0, 0]));
+    let mut shapes = [[[false; 2]; 2]; 3];
+    let mut shape_due = [0u32; 2];
+    let mut zst_dropped_with_co = 0;
     let check_drops = |expect: &Vec<bool>, o: &mut Outcome, at: &str| {
         for (id, e) in expect.iter().enumerate() {
             let d = drops[id].load(Ordering::SeqCst);
@@ -172,8 +216,44 @@ pub fn exec(c: &Case) -> Outcome {
                     o.set_fail("C25/remove-did-not-delete-the-key", format!("op {i}: key {k} still readable on coroutine {ci}"));
                 }
             }
+            Op::PutShape { c: ci, k, shape } => {
+                let Some(co) = &cos[ci as usize] else { continue };
+                let (sh, k) = (usize::from(shape % 2), usize::from(k % 2));
+                let had = if sh == 0 { co.put(SHAPE_KEYS[0][k], Guard).is_some() } else { co.put(SHAPE_KEYS[1][k], Wide([i as u64; 16])).is_some() };
+                if had != shapes[ci as usize][sh][k] {
+                    o.set_fail("C25/put-returned-wrong-previous-value", format!("op {i}: put (shape {sh}) on coroutine {ci} key {k}: previous value present = {had}, model says {}", shapes[ci as usize][sh][k]));
+                }
+                if had {
+                    // the returned previous value was dropped by the harness just now
+                    shape_due[sh] += 1;
+                }
+                shapes[ci as usize][sh][k] = true;
+            }
+            Op::RemoveShape { c: ci, k, shape } => {
+                let Some(co) = &cos[ci as usize] else { continue };
+                let (sh, k) = (usize::from(shape % 2), usize::from(k % 2));
+                let had = if sh == 0 { co.remove::<Guard>(SHAPE_KEYS[0][k]).is_some() } else { co.remove::<Wide>(SHAPE_KEYS[1][k]).is_some() };
+                if had != shapes[ci as usize][sh][k] {
+                    o.set_fail("C25/remove-returned-wrong-value", format!("op {i}: remove (shape {sh}) on coroutine {ci} key {k}: value present = {had}, model says {}", shapes[ci as usize][sh][k]));
+                }
+                if had {
+                    shape_due[sh] += 1;
+                }
+                shapes[ci as usize][sh][k] = false;
+            }
             Op::DropCo { c: ci } => {
                 if let Some(co) = cos[ci as usize].take() {
+                    for sh in 0..2 {
+                        for k in 0..2 {
+                            if shapes[ci as usize][sh][k] {
+                                shape_due[sh] += 1;
+                                shapes[ci as usize][sh][k] = false;
+                                if sh == 0 {
+                                    zst_dropped_with_co += 1;
+                                }
+                            }
+                        }
+                    }
                     let live: Vec<u32> = model[ci as usize].values().map(|x| x.0).collect();
                     if !live.is_empty() {
                         drops_with_live += 1;
@@ -195,6 +275,20 @@ pub fn exec(c: &Case) -> Outcome {
         if o.fail.is_none() {
             check_drops(&expect_dropped, &mut o, &format!("after op {i}"));
         }
+        if o.fail.is_none() {
+            let got = SHAPE_DROPS.with(std::cell::Cell::get);
+            for sh in 0..2 {
+                if got[sh] != shape_due[sh] {
+                    let what = ["zero-sized guard values", "128-byte 16-aligned values"][sh];
+                    let sig = if got[sh] < shape_due[sh] {
+                        if matches!(op, Op::DropCo { .. }) { "C25/values-not-dropped-with-the-coroutine" } else { "C25/value-not-dropped" }
+                    } else {
+                        "C25/value-dropped-while-still-stored"
+                    };
+                    o.set_fail(sig, format!("after op {i} {op:?}: destructors of {what} ran {} times, {} were due", got[sh], shape_due[sh]));
+                }
+            }
+        }
     }
     // release what is left through the API so that the harness itself leaks nothing
     for (ci, co) in cos.iter().enumerate() {
@@ -202,12 +296,17 @@ pub fn exec(c: &Case) -> Outcome {
             for k in model[ci].keys() {
                 drop(co.remove::<Tok>(KEYS[*k as usize]));
             }
+            for k in 0..2 {
+                drop(co.remove::<Guard>(SHAPE_KEYS[0][k]));
+                drop(co.remove::<Wide>(SHAPE_KEYS[1][k]));
+            }
         }
     }
     o.nontrivial = overwrites >= 1 && removes >= 1 && drops_with_live >= 1;
     o.class_if(overwrites >= 1, "overwrite")
         .class_if(removes >= 1, "remove")
         .class_if(drops_with_live >= 1, "coroutine-dropped-with-live-values")
+        .class_if(zst_dropped_with_co >= 1, "coroutine-dropped-with-a-live-zero-sized-value")
 }
 
 pub fn main(args: &Args) -> i32 {
